@@ -91,3 +91,20 @@ PROPS = {
                      "net.IP values of length 4 or 16 (other lengths: model and code both panic, compared but outside the theorems)"],
     ),
 }
+
+TRAV_RULE = ("traversal engine: real traversal.Start with a scripted blocking DoQuery; the explorer releases completions, AddNodes and "
+             "Stop at quiescent points (hook VerifSnapshot: outstanding == entered-released and cond channel armed / loop exited). "
+             "Generators: honest / silent / lying / duplicate-ID / one address under 1..16 IDs repeated across replies and seeds incl. "
+             "v4-mapped / node-filter / data-filter graphs; K 0..8(16), Alpha 0..4. Exhaustive completion orders for graphs <= 5 nodes, "
+             "Stop / AddNodes at every position of small schedules, seeded random schedules up to 14 (40) nodes. Every line compares "
+             "started-address set, outstanding, frontier length, Stalled, Stopped, per-query ctx.Done, AddNodes return, final closest set. "
+             "Relational: the runner keeps the set of model states reachable by interleaving the four locked sections of a completion with "
+             "the run loop. A line is distinct by its full text.")
+TRAV_TRUSTED = ["Go scheduler / select fairness and chansync internals (BroadcastCond modelled as a generation counter, SetOnce, LevelTrigger)",
+                "K-nearest tie-break (seeded maphash) assumed a strict total order; immutable.SortedMap modelled as a sorted list",
+                "quiescence detection relies on the hook reading op.cond.ch by reflection",
+                "the model is of the repaired algorithm for D3 (fix: commit in /repo)"]
+TRAV_ASSUME = ["node filter is a fixed function during one operation", "maphash of distinct address strings does not collide",
+               "C03 liveness conclusions assume weak fairness"]
+for _p in ("C02", "C03", "C04"):
+    PROPS[_p] = dict(engines=["traversal"], rule=TRAV_RULE, trusted=TRAV_TRUSTED, assumptions=TRAV_ASSUME)
